@@ -19,6 +19,21 @@ from props import pipegen, idgen, c12
 PROP = "C05"
 
 
+# configurations that are part of every run, whatever the seed: shorthands with dotted keys, a sweep with a variable no expression
+# reads, the framework's model-fitting processor next to a sweep (ordinary and swept nodes in one pipeline)
+FIXED_CONFIGS = [
+    [{"processor": "TSourceDef"}, {"processor": "rename:stats.mean:factor"}, {"processor": "delete:run.id"},
+     {"processor": "slice:TOp1:TColl", "parameters": {"a": 1}}, {"processor": 'template:"x_{a}":out'}],
+    [{"processor": "TSource", "derive": {"parameter_sweep": {"parameters": {"v": "2 * t"}, "variables": {"t": [1, 2, 3], "rep": [0, 1]},
+                                                              "mode": "combinatorial", "broadcast": False, "collection": "TColl"}}},
+     {"processor": "TMerge"}, {"processor": "TOp2", "parameters": {"a": True, "b": 1}}],
+    [{"processor": "TSourceDef"}, {"processor": "TOp1", "parameters": {"a": {"k1": [1, {"m": 0}], "zz": "s"}}},
+     {"processor": "TProbeP", "derive": {"parameter_sweep": {"parameters": {"a": "x + y"}, "variables": {"x": {"lo": 1.0, "hi": 2.0, "steps": 2}, "y": {"from_context": "seq_y"}},
+                                                               "mode": "by_position", "broadcast": True}}, "context_key": "res"},
+     {"processor": "ModelFittingContextProcessor", "parameters": {"fitting_model": "model:TFitModel:degree=2", "independent_var_key": "xs", "dependent_var_key": "ys"}}],
+]
+
+
 def mutations(nodes, rnd):
     """(operator, mutated nodes, index of the affected node or None for structural changes)"""
     out = []
@@ -208,7 +223,7 @@ def run(tier: str) -> int:
     stats = {"configs": 0, "mutants": 0, "by_operator": {}, "distinct_uuid_checks": 0, "identical_node_pairs": 0}
     samples = []
     for i in range(n_cases):
-        nodes = idgen.gen_config(rnd, with_sweep=0.8)
+        nodes = copy.deepcopy(FIXED_CONFIGS[i]) if i < len(FIXED_CONFIGS) else idgen.gen_config(rnd, with_sweep=0.8)
         stats["configs"] += 1
         base = idgen.real_ids(nodes)
         stats["distinct_uuid_checks"] += 1
